@@ -14,7 +14,7 @@ def NOT_REPRODUCED(msg=''):
 
 
 import math, cmath
-a = Arc((-1.2-0.8j), (2+1j), 180.0, False, True, (1.2099146453199594+0.7962578965134783j))
+a = Arc((0.48+1.36j), (2+1j), 36.86989764584402, False, False, (-0.4696761433868974-1.3569542645241037j))
 st, en, rot, fa, fs = a.start, a.end, a.rotation, a.large_arc, a.sweep
 rx0, ry0 = (2.0, 1.0)
 # independent F.6.5 / F.6.6
